@@ -1305,35 +1305,80 @@ pub fn c16_laws_pub(ctx: &mut Ctx, s: &str, only: Option<Vec<i64>>) {
 pub fn c06(ctx: &mut Ctx) {
     c06_core(ctx);
     crate::props_sizes::c06(ctx);
+    crate::props_far::c06(ctx);
 }
 
 pub fn c07(ctx: &mut Ctx) {
     c07_core(ctx);
     crate::props_sizes::c07(ctx);
+    crate::props_far::strings_of_deep_arrays(ctx, "C07");
+    crate::props_far::exponent_grid(ctx, &mut |c, s| {
+        let sv = json!(s);
+        if let refsem::SN::Num(f) = refsem::string_to_number(s) {
+            if f.is_finite() {
+                if let Some(num) = serde_json::Number::from_f64(f) {
+                    c07_pair(c, &sv, &Value::Number(num));
+                }
+                for nb in [f64::from_bits(f.to_bits().wrapping_add(1)), f64::from_bits(f.to_bits().wrapping_sub(1))] {
+                    if nb.is_finite() && f != 0.0 {
+                        if let Some(num) = serde_json::Number::from_f64(nb) {
+                            c07_pair(c, &Value::Number(num), &sv);
+                        }
+                    }
+                }
+            }
+        }
+    });
 }
 
 pub fn c08(ctx: &mut Ctx) {
     c08_core(ctx);
     crate::props_sizes::c08(ctx);
+    crate::props_far::strings_of_deep_arrays(ctx, "C08");
 }
 
 pub fn c09(ctx: &mut Ctx) {
     c09_core(ctx);
     crate::props_sizes::c09(ctx);
+    crate::props_far::strings_of_deep_arrays(ctx, "C09");
+    crate::props_far::exponent_grid(ctx, &mut |c, s| {
+        if s.len() % 3 != 0 {
+            return; // a third of the grid is enough here (C07 and C10 take all of it)
+        }
+        let sv = json!(s);
+        if let refsem::SN::Num(f) = refsem::string_to_number(s) {
+            if f.is_finite() {
+                if let Some(num) = serde_json::Number::from_f64(f) {
+                    c09_pair(c, &sv, &Value::Number(num.clone()));
+                    c09_pair(c, &Value::Number(num), &sv);
+                }
+            }
+        }
+    });
 }
 
 pub fn c10(ctx: &mut Ctx) {
     c10_core(ctx);
     c10_nested(ctx);
     crate::props_sizes::c10(ctx);
+    crate::props_far::c10(ctx);
+    crate::props_far::exponent_grid(ctx, &mut |c, s| {
+        c10_case(c, "+", &[json!(s)]);
+        c10_case(c, "*", &[json!(s), json!(1)]);
+        c10_case(c, "-", &[json!(s)]);
+        c10_case(c, "+", &[json!([s]), json!(0)]);
+        c10_case(c, "max", &[json!(s), json!("-1e400")]);
+    });
 }
 
 pub fn c15(ctx: &mut Ctx) {
     c15_core(ctx);
     crate::props_sizes::c15(ctx);
+    crate::props_far::c15(ctx);
 }
 
 pub fn c16(ctx: &mut Ctx) {
     c16_core(ctx);
     crate::props_sizes::c16(ctx);
+    crate::props_far::c16(ctx);
 }
